@@ -977,3 +977,135 @@ def check_c20(rep, tier, seed, wd, replay):
                     "files of 10-60 (thorough: -1000) chunks with overlap depth 1..8 built by the reference encoder; read in LogTime, Reverse and file order, with and without topic/time filters; the verif hook reports slots allocated and slots with unread messages after every Next; compared with the model's slot trace (maxima); oracle: slots <= max(1, max overlap of chunk ranges), 1 in file order",
                     [cr.read_replay(c)[:5] for c in cases[:2]], dict(st, files=len(files), disagreements=nd))
     return cov, ["attachment streaming memory and real buffer sizes are measured at run time, not proved (partial)"]
+
+
+# ------------------------------------------------------------------ C10: hostile input
+import chk_hostile as ch  # noqa: E402
+
+
+@prop("C10")
+def check_c10(rep, tier, seed, wd, replay):
+    import random
+    import struct
+    r = random.Random(seed * 1000 + 10)
+    nfiles = 10 if tier == "quick" else 120
+    files, crashed = cl.written_files(seed * 1000 + 10, nfiles * 3, "c10f", wd, nmax=10, force={"skipmagic": False})
+    files = [f for f in files if len(f["file"]) <= 1500][:nfiles]
+    lexcases, readcases, parsecases = [], [], []
+    budget = 700 if tier == "quick" else 20000
+    nmut = 0
+    lo_variants = [{"validate": 0, "cb": "full"}, {"validate": 1, "cb": "none"}, {"validate": 1, "emitinvalid": 1, "cb": "full", "maxrecord": 65536, "maxchunk": 65536},
+                   {"emitchunks": 1, "cb": "partial:3"}]
+    for f in files:
+        muts = list(ch.mutations(r, f["file"], per_field=2 if tier == "quick" else 6, extra=10 if tier == "quick" else 40))
+        r.shuffle(muts)
+        for desc, data in muts[: budget // max(1, len(files))]:
+            nmut += 1
+            cid = "%s_%d" % (f["id"], nmut)
+            lo = dict(r.choice(lo_variants))
+            lexcases.append({"id": cid + "_lex", "file": data, "lopts": lo, "src": {"seek": r.randint(0, 1)}, "base": f, "desc": desc, "limited": "maxrecord" in lo})
+            ops = [["info"], ["messages"]]
+            if r.random() < 0.5:
+                ops.append(["getmd", str(r.choice([0, 8, len(data) // 2, len(data), 2**63, 2**64 - 1]))])
+                ops.append(["getatt", str(r.choice([0, 8, len(data) // 2, len(data), 2**63 - 5, 2**64 - 9]))])
+            ro = r.choice([[], ["index:0"], ["order:log"], ["order:rev"], ["mdcb"], ["order:log", "mdcb", "topics:2f61"]])
+            for oi, op in enumerate(ops):
+                readcases.append({"id": "%s_read%d" % (cid, oi), "file": data, "ropts": ro, "ops": [op], "base": f, "desc": desc})
+            # every record body of the mutated file through its Parse function
+            pl = []
+            for off, op, n in ch.records(data[8:], 8)[:40]:
+                if op in ch.PARSE_KIND:
+                    pl.append("parse %s %s" % (ch.PARSE_KIND[op], cm.hx(data[off + 9:off + 9 + n])))
+                    if r.random() < 0.3 and n > 0:
+                        pl.append("parse %s %s" % (ch.PARSE_KIND[op], cm.hx(data[off + 9:off + 9 + r.randrange(n)])))
+            for _ in range(3):
+                pl.append("parse %s %s" % (r.choice(list(ch.PARSE_KIND.values())), cm.hx(bytes(r.randrange(256) for _ in range(r.randint(0, 60))))))
+            parsecases.append({"id": cid + "_parse", "lines": pl, "desc": desc})
+    # hand-made inputs for the sites the lexer/reader guard (kept as a corpus; run first)
+    corpus_dir = os.path.join(cm.VERIF, "corpus", "C10")
+    if os.path.isdir(corpus_dir):
+        for name in sorted(os.listdir(corpus_dir)):
+            data = bytes.fromhex(open(os.path.join(corpus_dir, name)).read().strip())
+            for vi, lo in enumerate(lo_variants):
+                lexcases.insert(0, {"id": "corpus_%s_lex%d" % (name, vi), "file": data, "lopts": dict(lo), "src": {"seek": 1}, "desc": name, "limited": "maxrecord" in lo})
+            for vi, ro in enumerate([[], ["index:0"], ["order:log", "mdcb"]]):
+                for oi, op in enumerate([["info"], ["messages"], ["getmd", "8"], ["getatt", "8"]]):
+                    readcases.insert(0, {"id": "corpus_%s_read%d_%d" % (name, vi, oi), "file": data, "ropts": ro, "ops": [op], "desc": name})
+    env = dict(os.environ, VERIF_ALLOC="1")
+    go_l, model_l, cr1 = cl.run_lex(lexcases, wd, "c10l", isolated=True, go_env=env)
+    go_r, model_r, cr2 = cr.run_read(readcases, wd, "c10r", isolated=True, go_env=env)
+    go_p, culp = cm.run_isolated(os.path.join(cm.BUILD, "impl"), "parse", [(c["id"], c["lines"]) for c in parsecases], wd, "c10pgo", timeout=60, mem_bytes=8 << 30)
+    mod_p, mcr = cm.run_sharded(os.path.join(cm.BUILD, "model"), "parse", [(c["id"], c["lines"]) for c in parsecases], wd, "c10pmodel")
+    for cmd, rc, err in cr1 + cr2 + mcr:
+        rep.add_violation("executor-crash", "%s exited %s: %s" % (cmd, rc, err), [], failing_input=False)
+    st = {"lex_inputs": len(lexcases), "read_inputs": len(readcases), "parse_calls": sum(len(c["lines"]) for c in parsecases),
+          "impl_errors": 0, "impl_ok": 0, "max_alloc_limited": 0, "max_alloc": 0, "codec_tolerated": 0}
+    outcome_classes = {}
+    for c in lexcases:
+        g, m = go_l.get(c["id"]), model_l.get(c["id"])
+        probs = []
+        if g:
+            if g["panic"]:
+                probs.append("lexer crashed / killed the process: %s" % g["panic"])
+            else:
+                outcome_classes[g["end"] or g["new"]] = outcome_classes.get(g["end"] or g["new"], 0) + 1
+                a = g.get("allocated") or 0
+                st["max_alloc"] = max(st["max_alloc"], a)
+                if c["limited"]:
+                    st["max_alloc_limited"] = max(st["max_alloc_limited"], a)
+                    if a > (256 << 20):
+                        probs.append("lexer with MaxRecordSize/MaxDecompressedChunkSize=64KiB allocated %d bytes for a %d-byte input" % (a, len(c["file"])))
+                elif a > (2 << 31) + (512 << 20):
+                    probs.append("lexer allocated %d bytes for a %d-byte input (beyond two maximal buffers)" % (a, len(c["file"])))
+        d = cl.diff_lex(g, m)
+        if d and not probs and g and m and not g["panic"] and not m["panic"]:
+            # damaged compressed payloads: decoder behaviour is an oracle with timing-dependent error reporting
+            if (g["new"], m["new"]) == ("ok", "ok") and any(x in c["file"] for x in (b"zstd", b"lz4")):
+                st["codec_tolerated"] += 1
+                d = None
+        for p in probs:
+            rep.add_violation("oracle", "case %s (%s): %s" % (c["id"], c["desc"], p), cl.lex_replay(c))
+        if d:
+            rep.add_violation("correspondence", "case %s (%s): %s" % (c["id"], c["desc"], d), cl.lex_replay(c), failing_input=bool(probs))
+    for c in readcases:
+        g, m = go_r.get(c["id"]), model_r.get(c["id"])
+        probs = []
+        if g:
+            pan = g["panic"] or next((o["panic"] for o in g["ops"] if o["panic"]), None)
+            if pan:
+                probs.append("reader crashed / killed the process: %s" % pan)
+            a = g.get("allocated") or 0
+            st["max_alloc"] = max(st["max_alloc"], a)
+            if a > (1 << 31) + (512 << 20):
+                probs.append("reader operation allocated %d bytes for a %d-byte input (beyond one maximal buffer)" % (a, len(c["file"])))
+        d = cr.diff_read(g, m, compare_slots=False)
+        if d and not probs and any(x in c["file"] for x in (b"zstd", b"lz4")) and g and m and not g["panic"] and not m["panic"]:
+            st["codec_tolerated"] += 1
+            d = None
+        for p in probs:
+            rep.add_violation("oracle", "case %s (%s): %s" % (c["id"], c["desc"], p), cr.read_replay(c))
+        if d:
+            rep.add_violation("correspondence", "case %s (%s): %s" % (c["id"], c["desc"], d), cr.read_replay(c), failing_input=bool(probs))
+    for c in parsecases:
+        g, m = go_p.get(c["id"]), mod_p.get(c["id"])
+        rp = ["case %s" % c["id"]] + c["lines"] + ["end"]
+        if c["id"] in culp:
+            rep.add_violation("oracle", "case %s: Parse* killed the process: %s" % (c["id"], culp[c["id"]]), rp)
+            continue
+        if g is None or m is None:
+            continue
+        gl = [l for l in g if l.startswith("parse ")]
+        for i, l in enumerate(gl):
+            if l.endswith(" panic"):
+                rep.add_violation("oracle", "case %s: %s panicked on %s" % (c["id"], l.split(" ")[1], c["lines"][i][:120]), rp)
+            if l.split(" ")[2].startswith("ok"):
+                st["impl_ok"] += 1
+            else:
+                st["impl_errors"] += 1
+        if gl != [l for l in m if l.startswith("parse ")]:
+            k = next((i for i in range(min(len(gl), len(m))) if gl[i] != m[i]), 0)
+            rep.add_violation("correspondence", "case %s: Parse result differs: impl %s | model %s (input %s)" % (c["id"], gl[k][:120] if k < len(gl) else None, m[k][:120] if k < len(m) else None, c["lines"][k][:100] if k < len(c["lines"]) else None), rp, failing_input=False)
+    cov = summarize(rep, len(lexcases) + len(readcases) + len(parsecases), nmut,
+                    "structured mutations of valid files (every length/offset/size/count field set to 0, 1, +-1, 2^31, 2^32-1, 2^63, 2^64-1, file size; truncation, record splicing, unknown compression, nested chunk, byte noise, random bytes) through NewLexer/Next under 4 option sets, NewReader/Info/Messages in all modes/orders, GetMetadata/GetAttachmentReader at hostile offsets, and every Parse* on every record body; each Go run isolated in a child (8 GiB address space cap, 60 s deadline, allocation accounting via runtime.MemStats); outcome and observables compared with the model; distinct = distinct mutated files",
+                    [cl.lex_replay(c)[:4] for c in lexcases[-2:]], dict(st, mutated_files=nmut, outcome_classes=outcome_classes))
+    return cov, ["real RSS, wall-clock and stack depth are measured, not proved (partial)", "decoder internals (zstd/lz4) are outside the model"]
